@@ -1336,6 +1336,16 @@ def attr_literal_table(ctx):
                     a = strip(a)
                     if a[0] == 'str':
                         lits.add(a[1])
+                    elif a[0] == 'upvar' and g.kind == 'Closure' and getattr(g, 'parent', None) in P.fns:
+                        # the name is a captured value of the closure (`.filter(move |(key, _)| key.as_str() == name)` with
+                        # `name` = "doc" where the closure was made)
+                        par = P.fns[g.parent]
+                        for c2 in par.calls():
+                            for y in walk(expand(par, par.expr_of_call(c2['term']))):
+                                if isinstance(y, tuple) and y and y[0] == 'closure' and y[1] == g.id and len(y) > 2 and a[1] < len(y[2]):
+                                    cv = strip(expand(par, y[2][a[1]]))
+                                    if cv[0] == 'str':
+                                        lits.add(cv[1])
         for l_ in lits:
             got.setdefault(l_, [[]])
         ok = set(got) == set(expect)
